@@ -218,6 +218,14 @@ func buildUpload(c caseA, path string, query []s3c.KV, payload []byte) (r *s3c.R
 			r.Set("X-Amz-Trailer", "x-amz-checksum-"+c.Algo)
 		}
 		o.Payload = cm
+		if c.Corrupt == "type-unsupported" {
+			// the body is framed as announced, but the announced streaming type is one the gateway has no decoder for
+			o.Payload = "STREAMING-AWS4-ECDSA-P256-SHA256-PAYLOAD"
+			if cm != s3c.StreamingSigned {
+				o.Payload += "-TRAILER"
+			}
+			effective = true
+		}
 		seed := r.Sign(o)
 		enc := s3c.EncodeChunked(payload, s3c.ChunkSpec{Mode: cm, Algo: c.Algo, Sizes: c.Chunks, Seed: seed, Secret: o.Creds.Secret, Region: gw.Region, Time: now})
 		b := enc.Bytes
@@ -446,6 +454,13 @@ func execA(c caseA) (v verdict, err error) {
 		}
 		return v, nil
 	}
+	if c.Corrupt == "type-unsupported" && resp.OK() {
+		// accepting is fine if the gateway could decode it after all; storing anything but the declared payload is not
+		if !after.Exists || after.Size != int64(len(payload)) || (c.Target == "put" && !bytes.Equal(after.Body, payload)) {
+			return v, fmt.Errorf("upload in a streaming encoding the gateway does not implement was acknowledged and stored %s instead of the %d declared bytes: %s", after, len(payload), desc)
+		}
+		return v, nil
+	}
 	if c.Corrupt == "extra-bytes" && resp.OK() {
 		// bytes after the terminating chunk are outside the declared payload: ignoring them
 		// is acceptable as long as the stored object is exactly the declared payload
@@ -464,7 +479,7 @@ func execA(c caseA) (v verdict, err error) {
 }
 
 var corruptions = []string{"none", "none", "md5", "sha256", "checksum-header", "trailer-checksum", "payload-flip", "chunk-sig", "trailer-sig",
-	"decoded-larger", "decoded-smaller", "short-body", "truncate-chunk", "extra-bytes", "chunk-size-larger"}
+	"decoded-larger", "decoded-smaller", "short-body", "truncate-chunk", "extra-bytes", "chunk-size-larger", "type-unsupported"}
 
 func genCase(t *rapid.T) caseA {
 	var c caseA
@@ -504,7 +519,7 @@ func genCase(t *rapid.T) caseA {
 			ok = c.Mode == "chunked-signed" || c.Mode == "chunked-signed-trailer"
 		case "trailer-sig":
 			ok = c.Mode == "chunked-signed-trailer"
-		case "decoded-larger", "truncate-chunk", "extra-bytes":
+		case "decoded-larger", "truncate-chunk", "extra-bytes", "type-unsupported":
 			ok = chunked
 		case "decoded-smaller", "chunk-size-larger":
 			ok = chunked && c.Size > 1
